@@ -33,6 +33,19 @@ CLAIMED = {
         note="Lean kernel; standard axioms; sorted() modelled as stable merge sort; PyLite translator.",
         technique="Lean 4 proof over translated key + differential correspondence",
         design="6/C18"),
+    "C20": dict(
+        category="proof",
+        text="Lean theorems over the hand model of InfosetFilter with the regular-expression classes extracted exactly "
+             "from the compiled patterns each run: the two name classes are exactly the complements (BMP) of the XML 1.0 "
+             "Name productions quoted in the module (decided on the range lists in the kernel and lifted to every character "
+             "by a proved complement lemma); toXmlName is total on non-empty names, yields a legal name for every BMP name, "
+             "is the identity on legal names, and the sequential str.replace loop equals the simultaneous substitution for "
+             "ANY set iteration order; coerced comments have no '--'/trailing '-' (preventDoubleDashComments); coerced "
+             "pubids contain only PubidChars. The inverse clause (fromXmlName o toXmlName = id) is decided by exhaustive "
+             "search on the real code only (partial).",
+        note="Lean kernel; standard axioms; Python re/str.replace/set semantics modelled; expat used only as an oracle.",
+        technique="Lean 4 proof (kernel-decided range tables + lemmas) + differential correspondence",
+        design="6/C20"),
 }
 
 PENDING_REASON = "check under construction in this round: model/theorems not yet committed (see DESIGN section 8); not claimed"
